@@ -37,6 +37,8 @@ PROGRAMS = {
     "waituntil": ('T = []; N = 0; waitUntil {N = N + 1; false};', True, False, False),
     "spawn_waituntil": ('T = []; N = 0; [] spawn {waitUntil {N = N + 1; false}}; T pushBack 1;', False, False, False),
     "long_sleep": ('T = []; T pushBack 1; sleep 100000; T pushBack 2;', True, False, False),
+    "huge_sleep": ('T = []; T pushBack 1; sleep 1e10; T pushBack 2;', True, False, False),      # (a delay that overflows a 64 bit nanosecond time point)
+    "nan_sleep_then_long": ('T = []; T pushBack 1; sleep (sqrt -1); sleep 99999; T pushBack 2;', True, False, False),
     "spawn_sleep": ('T = []; [] spawn {sleep 50000; T pushBack 9}; T pushBack 1;', False, False, False),
 }
 ENDLESS = [k for k, v in PROGRAMS.items() if not v[2]]
